@@ -130,6 +130,10 @@ def run(ctx):
                 r.bad("%s|finish" % name, "%s sink: finish() does not update the aggregate statistics consistently" % name, fn=g,
                       construct="finish")
 
+    from . import c09
+    with ctx.rule("C10.REDISCOVER", "match re-discovery is confined to the reported range (shared with C09.REDISCOVER)", floor=3,
+                  kind="GUARD/FLOW") as r:
+        c09.rediscover_rule(ctx, r)
     with ctx.rule("C10.KIND", "SummaryKind predicate tables (15 rows) and stats enabling", floor=16, exhaustive=True, kind="TABLE") as r:
         TAB = {
             "requires_stats": {"CountMatches"},
